@@ -289,6 +289,7 @@ var parserOpKinds = []string{"ParseString", "ParseBytes", "Parse", "ParseFromLex
 var defOpKinds = []string{"Def.Lex", "Def.LexString", "Def.LexBytes", "Def.Symbols", "Def.Rules", "Def.MarshalJSON", "SymbolsByRune", "Def.LexString", "Def.LexString", "Def.LexFailingReader", "MakeSymbolTable"}
 
 func runConcurrency(rc *RunCtx) *Violation {
+	capAbort = false
 	delims := runDelims(rc.seed)
 	simrt.ShuffleMaps = true
 	// ---- shared objects, built before any task exists --------------------------------------
@@ -296,7 +297,7 @@ func runConcurrency(rc *RunCtx) *Violation {
 	var defs []*sharedDef
 	np := 1 + simrt.Choose(2)
 	for i := 0; i < np; i++ {
-		w := pickWorld()
+		w := pickAnyParser()
 		if i == 0 && simrt.Choose(3) != 0 {
 			w = worldHeredoc // the one definition with a cache written during lexing
 		}
@@ -385,7 +386,7 @@ func runConcurrency(rc *RunCtx) *Violation {
 			} else {
 				x, _ := drawDoc(sp.w, delims, 4)
 				op.input = x
-				if withFaults {
+				if withFaults && !sp.w.verbatim {
 					op.input, _ = deriveInput(rc, x, nil, allContentFaults)
 				}
 			}
@@ -627,6 +628,12 @@ func runConcurrency(rc *RunCtx) *Violation {
 	}
 	for _, op := range readbackRefs {
 		refs[op.key] = exec(op, true)
+	}
+	if capAbort {
+		// some call was cut off by the stall guard: nothing about this run is judged
+		capAbort = false
+		rc.agg.Discarded++
+		return nil
 	}
 	for _, r := range results {
 		ref := refs[r.op.key]
